@@ -129,6 +129,7 @@ def gen_case(r, grid, n, mode=None, unit=None):
             "names": r.sample(["est", "a_b", "\u00fc x", "1e3", " lead", "b.tum", "-1", "x" * 40], 3),
             "preread": r.sample(["positions_xyz", "orientations_quat_wxyz", "poses_se3", "distances", "check", "timestamps"], r.randint(0, 3)),
             "stamps_readonly": r.random() < 0.15, "reuse": r.random() < 0.35,
+            "tr2_stamped": r.random() < 0.4,
             "modify": r.choice([None, None, None, "project:XY", "project:XZ", "project:YZ", "transform", "scale", "reduce"]),
             "modify_right": r.random() < 0.5,
             "figmgmt": r.choice([None, None, "other_current", "bare", "two_axes"]),
@@ -349,7 +350,12 @@ def run_impl_(case):
 
     lay = case.get("layouts") or [None, None]
     tr = make_traj(case["pos"], case["rot"], case["stamps"], dts[0], lay[0])
-    tr2 = make_traj(case["pos2"], case["rot"][:len(case["pos2"])], None, dts[1], lay[1])
+    st2 = None
+    if case.get("tr2_stamped") and case["stamps"] is not None and len(case["pos2"]) <= len(case["stamps"]):
+        # the second trajectory carries timestamps of its own (another clock: offset and drift far beyond any association
+        # tolerance): pose correspondences are by index, in pose order, whatever the stamps say
+        st2 = [t + 0.75 + 0.013 * k for k, t in enumerate(case["stamps"][:len(case["pos2"])])]
+    tr2 = make_traj(case["pos2"], case["rot"][:len(case["pos2"])], st2, dts[1], lay[1])
     if case.get("stamps_readonly") and case["stamps"] is not None:
         tr.timestamps.setflags(write=False)
     for attr in case.get("preread") or []:        # L4: caches materialised before the calls under test
